@@ -622,6 +622,8 @@ fn call(cx: &Ctx, c: &ExprCall) -> R<String> {
         ("Ok", 1) if cx.ret_result => format!("(Except.ok {})", args[0]),
         ("Err", 1) if cx.ret_result => format!("(Except.error {})", args[0]),
         ("Fr::one", 0) => "(1 : Fr)".into(),
+        // `U256::from(x)` for a field element `x`: its canonical integer value (`From<Fr|Fq> for U256` is `into_u256`, limb level: Fp_into_u256_refines)
+        ("U256::from", 1) if !cx.lib => format!("{}.val", paren(&args[0])),
         ("P::coeff_b", 0) => format!("(GroupParams.coeff_b : {})", cx.mono.clone().ok_or("P::coeff_b outside a monomorphised impl")?),
         ("P::check_order", 0) => format!("(GroupParams.check_order {})", cx.mono.clone().ok_or("P::check_order outside a monomorphised impl")?),
         ("Vec::new", 0) => "[]".into(),
@@ -1337,7 +1339,13 @@ fn for_iter(cx: &Ctx, e: &Expr) -> R<String> {
     if s == "0..2" { return Ok("[0, 1]".into()); }
     if s == "0..4" { return Ok("[0, 1, 2, 3]".into()); }
     if s == "U256::from(other).bits_without_leading_zeros()" { return Ok("(bitsMSB other.val)".into()); }
-    let _ = cx;
+    // `<canonical integer>.bits_without_leading_zeros()` for any expression of that kind (e.g. a `let k = U256::from(other);` before the loop)
+    if let Expr::MethodCall(m) = e {
+        if m.method == "bits_without_leading_zeros" && m.args.is_empty() {
+            let recv = expr(cx, &m.receiver)?;
+            return Ok(format!("(bitsMSB {})", paren(&recv)));
+        }
+    }
     Err(format!("loop iterator {}", s))
 }
 
